@@ -448,7 +448,7 @@ def photons_agree(impl_ph, model_ph, d, rotated=False):
 
 
 def run(ctx):
-    n = 540 if ctx.tier == "quick" else 9000
+    n = 450 if ctx.tier == "quick" else 9000
     ctx.trusted += [
         "hand-written model coq/C20/Optical.v (+ C15/Samplers.v, Base/Vec3.v) tied by replay-RNG differential (props/C20/run.py, harness/optical.cc)",
         "float instance of Num (Base/NumF.v, Base/FloatFun.v): own exp/log/sin/cos/expm1, sin(pi w) for sincospi; compared with libm under rtol 1e-9",
